@@ -777,6 +777,13 @@ func (s *SMT) VerifyProof(k []byte, v []byte, validateMembership bool, root []by
 	if proofLen < 2 {
 		return false, ErrInvalidMerkleTreeProof()
 	}
+	// proofs come from untrusted sources: every node key must be a well-formed node key, otherwise
+	// the key arithmetic below indexes out of range
+	for _, n := range proof {
+		if n == nil || !validNodeKeyBytes(n.Key, s.keyBitLength) {
+			return false, ErrInvalidMerkleTreeProof()
+		}
+	}
 	// The target is always the first value in the proof. For membership
 	// proofs, it represents the actual value being verified. For non-membership proofs,
 	// it indicates the potential location of the node. The initial root hash
@@ -786,6 +793,22 @@ func (s *SMT) VerifyProof(k []byte, v []byte, validateMembership bool, root []by
 	// calculate the parent node's key by finding the greatest common prefix (GCP)
 	// of the current node's and its sibling's keys
 	currentKey := new(key).fromBytes(proof[0].Key)
+	// the key whose membership / non-membership is being proven
+	target := newNodeKey(crypto.Hash(k), s.keyBitLength)
+	// the walk towards the key stops at the proven node only if that node is the key itself or
+	// diverges from it; a proven node that is a proper prefix of the key says nothing about the key
+	if provenBits := currentKey.totalBits(); provenBits < target.totalBits() {
+		isPrefix := true
+		for bit := 0; bit < provenBits; bit++ {
+			if target.bitAt(bit) != currentKey.bitAt(bit) {
+				isPrefix = false
+				break
+			}
+		}
+		if isPrefix {
+			return false, nil
+		}
+	}
 	// create a new in-memory store to reconstruct the tree
 	memStore, err := NewStoreInMemory(lib.NewDefaultLogger())
 	if err != nil {
@@ -843,10 +866,43 @@ func (s *SMT) VerifyProof(k []byte, v []byte, validateMembership bool, root []by
 		gcp := new(key)
 		// calculate the GCP between the node and the sibling based on the length of
 		// the least significant bits to avoid out of bounds errors
-		if currentKey.totalBits() < currentKey.totalBits() {
+		currentBits, nodeBits := currentKey.totalBits(), nodeKey.totalBits()
+		if currentBits > nodeBits {
 			currentKey.greatestCommonPrefix(new(int), gcp, nodeKey)
 		} else {
 			nodeKey.greatestCommonPrefix(new(int), gcp, currentKey)
+		}
+		// a parent's key is a proper prefix of both of its children's keys; anything else is not a
+		// tree (it would make the walk below loop or leave the proven path)
+		if gcp.bitCount >= currentBits || gcp.bitCount >= nodeBits {
+			return false, ErrInvalidMerkleTreeProof()
+		}
+		// the last parent is the root, whose children branch at the very first bit
+		if i == proofLen-1 && gcp.bitCount != 0 {
+			return false, ErrInvalidMerkleTreeProof()
+		}
+		// the children branch at the first bit after the parent's key: the proven child has to be on
+		// the side the proof claims and the sibling on the other
+		provenSide := RightChild
+		if proof[i].Bitmask != LeftChild {
+			provenSide = LeftChild
+		}
+		if currentKey.bitAt(gcp.bitCount) != provenSide || nodeKey.bitAt(gcp.bitCount) == provenSide {
+			return false, ErrInvalidMerkleTreeProof()
+		}
+		// the proof must be a proof for *this* key: below the lowest parent the walk from the root
+		// towards the key has to branch to the proven node. Otherwise it would leave the proven path
+		// into a sibling that is only known by its hash, and a valid proof for another key would
+		// 'prove' the absence of a key that is present
+		if i == 1 {
+			for bit := 0; bit < gcp.bitCount; bit++ {
+				if target.bitAt(bit) != currentKey.bitAt(bit) {
+					return false, nil
+				}
+			}
+			if target.bitAt(gcp.bitCount) != provenSide {
+				return false, nil
+			}
 		}
 		// update the current key to the parent key
 		currentKey = gcp
@@ -869,16 +925,20 @@ func (s *SMT) VerifyProof(k []byte, v []byte, validateMembership bool, root []by
 		return false, nil
 	}
 	// calculate the key to traverse the tree
-	smt.target = &node{Key: newNodeKey(crypto.Hash(k), smt.keyBitLength)}
+	smt.target = &node{Key: target}
 	// make sure the target is valid
 	if err := smt.validateTarget(smt.target); err != nil {
 		return false, err
 	}
 	// reset the traversal variables
 	smt.reset()
-	// navigates the tree downward
+	// navigates the tree downward (the checks above guarantee the walk stays on the proven path)
 	if err := smt.traverse(); err != nil {
 		return false, err
+	}
+	// the walk must have ended at the proven node, as it did when the proof was generated
+	if !bytes.Equal(smt.current.Key.bytes(), proof[0].Key) {
+		return false, nil
 	}
 	// Verify whether the key exists in the tree and what kind of proof is being validated
 	// (membership or non-membership).
@@ -918,6 +978,26 @@ Examples:
 An alternative structure to this design would've been storing the bit-length in the final byte
 however storing the bit length might require two bytes for keys > length of 255
 */
+
+// validNodeKeyBytes() returns true if the bytes are a well-formed encoded node key of at most
+// maxBits bits: at least one data byte plus the meta byte, and the meta byte (number of leading
+// zero bits of the final data byte that belong to the key) fits the final byte
+func validNodeKeyBytes(bz []byte, maxBits int) bool {
+	size := len(bz)
+	if size < 2 {
+		return false
+	}
+	// number of significant bits in the last data byte ('0' still counts as 1 bit)
+	bitLen := bits.Len8(bz[size-2])
+	if bitLen == 0 {
+		bitLen = 1
+	}
+	leadingZeroes := int(bz[size-1])
+	if leadingZeroes+bitLen > 8 {
+		return false
+	}
+	return (size-2)*8+leadingZeroes+bitLen <= maxBits
+}
 
 // key is the structure used to cache data about node keys for optimal performance
 type key struct {
